@@ -566,7 +566,7 @@ B('pB4_state_class_level_list', ['C06'], 'R06.c',
 B('pB4_state_parameter_default', ['C06'], 'R06.c',
   (A, _DS_INIT, "    def __init__(self, exceptions=[]):\n        self.exceptions = exceptions\n        self.allowed_methods = set()\n        self.attempted_routes = []\n"))
 
-# ---------------------------------------------------------------------------------------------- the sentinel decision (R06.c, R08.h)
+# ---------------------------------------------------------------------------------------------- the sentinel decision (R06.c, R08.i)
 _HS_HEAD = "        err_handler = _application.error_handler\n"
 _DS_REPR = "    def __repr__(self):\n        args = (self.__class__.__name__, self.exceptions, self.allowed_methods)\n"
 _ST_EXC = "        if self.exceptions:\n            return self.exceptions[-1]\n"
@@ -581,14 +581,14 @@ def _state_decides(*steps):
 
 _DELEGATE = (R, _HS_HEAD + _HS, "        return _dispatch_state.final_error(request, _application)\n")
 T('pB4_twin_sentinel_decided_by_state', ['C06', 'C08'], _DELEGATE, (A, _DS_REPR, _state_decides(_ST_EXC, _ST_405, _ST_404) + _DS_REPR))
-B('pB4_state_decides_405_first', ['C06', 'C08'], {'C06': 'R06.c', 'C08': 'R08.h'}, _DELEGATE,
+B('pB4_state_decides_405_first', ['C06', 'C08'], {'C06': 'R06.c', 'C08': 'R08.i'}, _DELEGATE,
   (A, _DS_REPR, _state_decides(_ST_405, _ST_EXC, _ST_404) + _DS_REPR))
 B('pB4_state_decides_first_error', ['C06'], 'R06.c', _DELEGATE,
   (A, _DS_REPR, _state_decides(_ST_EXC.replace('[-1]', '[0]'), _ST_405, _ST_404) + _DS_REPR))
-B('pB4_sentinel_405_before_errors', ['C08'], 'R08.h', (R, _HS, _HS_405 + _HS_EXC + _HS_404))
-B('pB4_sentinel_errors_only_without_methods', ['C06', 'C08'], {'C06': 'R06.c', 'C08': 'R08.h'},
+B('pB4_sentinel_405_before_errors', ['C08'], 'R08.i', (R, _HS, _HS_405 + _HS_EXC + _HS_404))
+B('pB4_sentinel_errors_only_without_methods', ['C06', 'C08'], {'C06': 'R06.c', 'C08': 'R08.i'},
   (R, _HS, "        parked = _dispatch_state.exceptions\n        if parked and not _dispatch_state.allowed_methods:\n            return parked[-1]\n" + _HS_405 + _HS_404))
-B('pB4_sentinel_404_before_errors', ['C06', 'C08'], {'C06': 'R06.c', 'C08': 'R08.h'},
+B('pB4_sentinel_404_before_errors', ['C06', 'C08'], {'C06': 'R06.c', 'C08': 'R08.i'},
   (R, _HS, "        if not _dispatch_state.allowed_methods:\n            nf_type = err_handler.not_found_type\n"
            "            return nf_type(dispatch_state=_dispatch_state, request=request, application=_application)\n" + _HS_EXC +
            "        mna_type = err_handler.method_not_allowed_type\n        return mna_type(allowed_methods=_dispatch_state.allowed_methods)\n"))
